@@ -151,6 +151,10 @@ for arm in ("Some('0'..='9')", "Some('.')", "Some('i')"):
 # ---- the public wrappers (units <stack>-glue): strip whitespace, Some(placeholder), value returned unchanged, Err iff no parse
 G = '*-glue'
 rule(G, 'eval_*', '*', ['post', 'precond', 'assert'], ['C13', 'C14', 'C03', 'C20'])
+# every property about what eval_X(text, placeholder) returns presupposes that the wrapper is the plain composition
+# eval(parse(strip(text), Some(placeholder))) and returns that value unchanged: the wrapper contract is part of each of them
+rule(G, 'eval_*', '*', ['post', 'precond', 'assert'], ['C04', 'C10', 'C11', 'C12', 'C15', 'C19'])
+rule('i64-glue', 'eval_*', '*', ['post', 'precond', 'assert'], ['C06'])
 rule('f64-glue', 'eval_*', '*', ['post', 'precond', 'assert'], ['C05'])
 rule('number-glue', 'eval_*', '*', ['post', 'precond', 'assert'], ['C09'])
 rule('decimal-glue', 'eval_*', '*', ['post', 'precond', 'assert'], ['C07'])
